@@ -14,6 +14,7 @@ RULE = ('exhaustive enumeration of (n, k, backing) with 0<=n<=N, every k in [-1,
         'pipelines (C01 alphabet) split for every k against the reference value list. Oracle: arithmetic partition '
         'predicate over self-describing examples. Non-trivial = k>=2 and n mod k != 0; distinct by (n, k, backing).')
 ASSUMPTIONS = [
+    'shard counts and indices may be numpy integers (np.int64, np.int32, np.uint8) as well as Python ints',
     'examples are self-describing tuples, so provenance (loss, duplication, order) is decidable from values alone',
     'a shard count outside 1..n must raise an Exception (the code raises ValueError); n=0 therefore rejects every k',
 ]
@@ -118,6 +119,23 @@ def check_one(kind, n, k, full=True):
                     raise Violation('shard-index-outside', f'{kind} n={n} k={k} shard {si}[{j}] returned {v!r}')
                 if v != lists[si][j]:
                     raise Violation('shard-index-value', f'{kind} n={n} k={k} shard {si}[{j}] == {v!r}')
+    if n <= 40:
+        # shard counts / indices are often computed with numpy (len(ds) // np.int64(...), np.prod(...))
+        for T in (np.int64, np.int32, np.uint8):
+            try:
+                alt = [list(x) for x in ds.split(T(k))]
+            except Exception as e:
+                raise Violation('numpy-count-refused', f'{kind} n={n}: split({T.__name__}({k})) raised {e!r}')
+            if alt != lists:
+                raise Violation('numpy-count-differs', f'{kind} n={n}: split({T.__name__}({k})) gave {alt}')
+            i = k // 2
+            try:
+                one = list(ds.shard(T(k), T(i)))
+            except Exception as e:
+                raise Violation('numpy-count-refused', f'{kind} n={n}: shard({T.__name__}({k}), {T.__name__}({i})) '
+                                                       f'raised {e!r}')
+            if one != lists[i]:
+                raise Violation('numpy-count-differs', f'{kind} n={n}: shard({T.__name__}({k}), {i}) gave {one}')
     if full:
         # every shard index for n <= 100, a spread of indices beyond (split itself is always checked completely)
         for i in (range(k) if n <= 100 else sorted({0, 1, k // 3, k // 2, k - 2, k - 1} & set(range(k)))):
